@@ -3,7 +3,7 @@
 # A .diff/.patch argument is applied with `git apply`-style patch -p1; anything else is a sed script file
 # applied to all three library sources + headers.
 set -e
-M=$1; P=$2; T=${3:-quick}
+M=$(readlink -f $1); P=$2; T=${3:-quick}
 D=$(mktemp -d /tmp/mut.XXXXXX)
 mkdir -p $D/repo/CPP && cp -r /repo/CPP/Clipper2Lib $D/repo/CPP/
 if [[ "$M" == *.diff || "$M" == *.patch ]]; then (cd $D/repo && patch -s -p1 < "$M"); else
